@@ -19,7 +19,7 @@ import ast
 import copy
 import json
 from pathlib import Path
-from typing import Iterable
+from typing import Any, Iterable
 
 from .astutil import dotted, norm
 
@@ -352,8 +352,9 @@ class PathEnv:
                 self.env.pop(n.id, None)
                 for k in [k for k, v in self.env.items() if any(isinstance(x, ast.Name) and x.id == n.id for x in ast.walk(v))]:
                     self.env.pop(k)
-        if tgt is not None and self._ok_value(val) and not (_is_container_ctor(val) and _is_empty_container(val)) \
-                and not any(isinstance(x, ast.Name) and x.id == tgt for x in ast.walk(val)):
+        if tgt is not None and self._ok_value(val) and not (_is_container_ctor(val) and _is_empty_container(val)):
+            # (x = E[x]: st2 is already resolved, so an x that is still read on the right is the earlier, opaque value of x; every later
+            #  read of x is replaced by E[x], i.e. names in resolved text always denote their last opaque definition)
             self.env[tgt] = val
         # a, b = (x, y): component-wise (the right-hand side is already resolved, so a tuple-valued local works too)
         if isinstance(st2, ast.Assign) and len(st2.targets) == 1 and isinstance(st2.targets[0], ast.Tuple) and isinstance(st2.value, ast.Tuple) \
@@ -458,6 +459,31 @@ def _single_trailing_return(body: list[ast.stmt]) -> tuple[list[ast.stmt], ast.e
     if len(rets) == 1 and body and rets[0] is body[-1]:
         return body[:-1], rets[0].value
     return None
+
+
+def _returns_to_ifexp(body: list[ast.stmt]) -> ast.expr | None:
+    """``if T: return A`` / ``elif U: return B`` / ... / ``return Z``  is  ``return A if T else (B if U else Z)`` (same evaluation order)."""
+    def chain(stmts: list[ast.stmt]) -> ast.expr | None:
+        if not stmts:
+            return None
+        st = stmts[0]
+        if isinstance(st, ast.Return) and st.value is not None:
+            return st.value
+        if isinstance(st, ast.If):
+            a_ = chain(st.body) if len(st.body) == 1 else None
+            if a_ is None:
+                return None
+            rest = st.orelse if st.orelse else stmts[1:]
+            if st.orelse and stmts[1:]:
+                return None
+            b_ = chain(rest)
+            if b_ is None:
+                return None
+            return ast.copy_location(ast.IfExp(test=st.test, body=a_, orelse=b_), st)
+        return None
+    if len(body) < 2 and not (body and isinstance(body[0], ast.If)):
+        return None
+    return chain(body)
 
 
 def _single_exit(body: list[ast.stmt], ret: str) -> list[ast.stmt] | None:
@@ -690,6 +716,11 @@ class HelperInliner:
         body = [st for st in callee.body if not (isinstance(st, ast.Expr) and isinstance(st.value, ast.Constant))]
         body = copy.deepcopy(body)
         str_ret = _single_trailing_return(body)
+        if str_ret is None:
+            one = _returns_to_ifexp(body)
+            if one is not None:
+                body = [ast.copy_location(ast.Return(value=one), body[0])]
+                str_ret = _single_trailing_return(body)
         if str_ret is None:
             # several returns: single-exit form (every `return E` becomes `__ret = E`, the code after an if is folded into its branches)
             se = _single_exit(body, "__ret")
@@ -1062,6 +1093,10 @@ class HelperInliner:
                         body = [s for s in cal2.body if not (isinstance(s, ast.Expr) and isinstance(s.value, ast.Constant)) and not isinstance(s, ast.Pass)]
                     except RecursionError:
                         pass
+                if not (len(body) == 1 and isinstance(body[0], ast.Return)):
+                    one = _returns_to_ifexp(copy.deepcopy(body))
+                    if one is not None:
+                        body = [ast.copy_location(ast.Return(value=one), body[0])]
                 if len(body) == 1 and isinstance(body[0], ast.Return) and body[0].value is not None:
                     b = outer._bind(callee, implicit, node)
                     if b is not None and all(is_pure_expr(x) for x in b[0].values()):
@@ -1140,6 +1175,19 @@ def _unroll_bindings(target: ast.expr, elts: list[ast.expr]) -> list[dict[str, a
         else:
             return None
     return out
+
+
+def _bool_typed(e: ast.expr) -> ast.expr | None:
+    """If ``e`` always evaluates to True or False exactly as the truth value of some condition C, return C."""
+    if isinstance(e, ast.Call) and isinstance(e.func, ast.Name) and e.func.id == "bool" and len(e.args) == 1 and not e.keywords:
+        return e.args[0]
+    if isinstance(e, ast.Compare) and all(isinstance(o, (ast.Is, ast.IsNot, ast.In, ast.NotIn)) for o in e.ops):
+        return e
+    if isinstance(e, ast.UnaryOp) and isinstance(e.op, ast.Not):
+        return e
+    if isinstance(e, ast.Call) and isinstance(e.func, ast.Name) and e.func.id in ("isinstance", "issubclass", "hasattr", "callable", "any", "all"):
+        return e
+    return None
 
 
 def lower(fn: ast.FunctionDef, tuples: bool = True, ifexp: bool = True) -> ast.FunctionDef:
@@ -1227,6 +1275,16 @@ def lower(fn: ast.FunctionDef, tuples: bool = True, ifexp: bool = True) -> ast.F
                     c.value.elts[pos] = v  # type: ignore[union-attr]
                     return c
                 new = [ast.copy_location(ast.If(test=ife.test, body=[mkt(ife.body)], orelse=[mkt(ife.orelse)]), st)]
+            elif isinstance(st, ast.Return) and isinstance(st.value, ast.Tuple) and len(st.value.elts) >= 2 and _bool_typed(st.value.elts[0]) is not None \
+                    and all(is_pure_expr(x) for x in st.value.elts[1:]):
+                # return (bool(C), X)  ->  if C: return (True, X) else: return (False, X)
+                cond = _bool_typed(st.value.elts[0])
+
+                def mkb(v: bool) -> ast.stmt:
+                    c = copy.deepcopy(st)
+                    c.value.elts[0] = ast.copy_location(ast.Constant(value=v), st)  # type: ignore[union-attr]
+                    return c
+                new = [ast.copy_location(ast.If(test=cond, body=[mkb(True)], orelse=[mkb(False)]), st)]
             elif isinstance(st, ast.Return) and isinstance(st.value, ast.IfExp):
                 new = [ast.copy_location(ast.If(test=st.value.test, body=[ast.copy_location(ast.Return(value=st.value.body), st)],
                                                 orelse=[ast.copy_location(ast.Return(value=st.value.orelse), st)]), st)]
@@ -1239,6 +1297,15 @@ def lower(fn: ast.FunctionDef, tuples: bool = True, ifexp: bool = True) -> ast.F
                     c.value.args = [v]  # type: ignore[attr-defined]
                     return c
                 new = [ast.copy_location(ast.If(test=ife.test, body=[mkc(ife.body)], orelse=[mkc(ife.orelse)]), st)]
+            elif ifexp and isinstance(st, ast.For) and isinstance(st.iter, ast.IfExp):
+                # for x in (A if c else B): body [else: E]   ->   if c: for x in A: ... else: for x in B: ...   (c is evaluated once, first)
+                ife = st.iter
+
+                def mkl(it: ast.expr) -> ast.stmt:
+                    c = copy.deepcopy(st)
+                    c.iter = it
+                    return c
+                new = [ast.copy_location(ast.If(test=ife.test, body=[mkl(ife.body)], orelse=[mkl(ife.orelse)]), st)]
             elif ifexp and isinstance(st, (ast.Assign, ast.AnnAssign, ast.Expr, ast.Return)) and isinstance(getattr(st, "value", None), ast.Call) \
                     and isinstance(st.value.func, ast.IfExp) and is_pure_expr(st.value.func.test):
                 # (f if c else g)(args)  ->  if c: f(args) else: g(args)     (c is evaluated before the arguments either way)
@@ -1405,6 +1472,204 @@ class _Canon(ast.NodeTransformer):
     def visit_ClassDef(self, node: ast.ClassDef) -> ast.AST:
         return node  # class bodies keep their annotations (dataclass fields)
 
+    # ---- "..{}..".format(a, b) -> f"..{a}..{b}"  (same str()/format() calls on the same values)
+    def visit_Call(self, node: ast.Call) -> ast.AST:
+        self.generic_visit(node)
+        f = node.func
+        if isinstance(f, ast.Attribute) and f.attr == "format" and isinstance(f.value, ast.Constant) and isinstance(f.value.value, str) \
+                and not any(isinstance(a, ast.Starred) for a in node.args) and all(k.arg is not None for k in node.keywords):
+            js = _format_to_fstring(f.value.value, node.args, {k.arg: k.value for k in node.keywords})
+            if js is not None:
+                return ast.copy_location(js, node)
+        return node
+
+    # ---- string building: constants inside f-strings are literal text; "lit" + <known str> is an f-string
+    def visit_JoinedStr(self, node: ast.JoinedStr) -> ast.AST:
+        self.generic_visit(node)
+        return _fold_joined(node)
+
+    def visit_BinOp(self, node: ast.BinOp) -> ast.AST:
+        self.generic_visit(node)
+        if isinstance(node.op, ast.Add) and _known_str(node.left) and _known_str(node.right) \
+                and (isinstance(node.left, (ast.Constant, ast.JoinedStr)) or isinstance(node.right, (ast.Constant, ast.JoinedStr))):
+            parts: list[ast.expr] = []
+            for side in (node.left, node.right):
+                if isinstance(side, ast.JoinedStr):
+                    parts += side.values
+                elif isinstance(side, ast.Constant):
+                    parts.append(side)
+                else:
+                    parts.append(ast.FormattedValue(value=side, conversion=-1, format_spec=None))
+            return ast.copy_location(_fold_joined(ast.JoinedStr(values=parts)), node)
+        return node
+
+    # ---- match statements over value / singleton / class / wildcard patterns are if-chains
+    def visit_Match(self, node: ast.Match) -> Any:
+        self.generic_visit(node)
+        out = _lower_match(node)
+        return out if out is not None else node
+
+
+def _known_str(e: ast.expr) -> bool:
+    """Expressions that are str objects whatever the input (so that + on them is concatenation and {} prints them unchanged)."""
+    if isinstance(e, ast.Constant):
+        return isinstance(e.value, str)
+    if isinstance(e, ast.JoinedStr):
+        return True
+    if isinstance(e, ast.Attribute) and e.attr in ("__name__", "__qualname__", "__module__"):
+        return True
+    if isinstance(e, ast.Call) and isinstance(e.func, ast.Name) and e.func.id in ("str", "repr") and len(e.args) == 1 and not e.keywords:
+        return True
+    if isinstance(e, ast.BinOp) and isinstance(e.op, ast.Add):
+        return _known_str(e.left) and _known_str(e.right)
+    return False
+
+
+def _fold_joined(node: ast.JoinedStr) -> ast.expr:
+    vals: list[ast.expr] = []
+    for v in node.values:
+        if isinstance(v, ast.FormattedValue) and v.conversion == -1 and v.format_spec is None:
+            if isinstance(v.value, ast.Constant) and isinstance(v.value.value, str):
+                v = ast.Constant(value=v.value.value)
+            elif isinstance(v.value, ast.JoinedStr):  # f"{f'..'}" prints the inner string unchanged
+                for w in v.value.values:
+                    vals.append(w)
+                continue
+        if isinstance(v, ast.Constant) and vals and isinstance(vals[-1], ast.Constant):
+            vals[-1] = ast.Constant(value=vals[-1].value + v.value)
+        else:
+            vals.append(v)
+    # merge constants that became adjacent through the splice above
+    out: list[ast.expr] = []
+    for v in vals:
+        if isinstance(v, ast.Constant) and out and isinstance(out[-1], ast.Constant):
+            out[-1] = ast.Constant(value=out[-1].value + v.value)
+        else:
+            out.append(v)
+    if len(out) == 1 and isinstance(out[0], ast.Constant):
+        return ast.copy_location(out[0], node)
+    if not out:
+        return ast.copy_location(ast.Constant(value=""), node)
+    return ast.copy_location(ast.JoinedStr(values=out), node)
+
+
+def _format_to_fstring(fmt: str, args: list[ast.expr], kwargs: dict[str, ast.expr]) -> ast.JoinedStr | None:
+    import string
+    try:
+        parts = list(string.Formatter().parse(fmt))
+    except ValueError:
+        return None
+    values: list[ast.expr] = []
+    auto = 0
+    used: list[Any] = []
+    for lit, field, spec, conv in parts:
+        if lit:
+            values.append(ast.Constant(value=lit))
+        if field is None:
+            continue
+        if spec and ("{" in spec or "}" in spec):
+            return None
+        if field == "":
+            key: Any = auto
+            auto += 1
+        elif field.isdigit():
+            key = int(field)
+        elif field.isidentifier():
+            key = field
+        else:
+            return None  # attribute / index access inside the field
+        if isinstance(key, int):
+            if key >= len(args):
+                return None
+            val = args[key]
+        else:
+            if key not in kwargs:
+                return None
+            val = kwargs[key]
+        if key in used and not isinstance(val, (ast.Name, ast.Constant)):
+            return None
+        used.append(key)
+        values.append(ast.FormattedValue(value=copy.deepcopy(val), conversion=ord(conv) if conv else -1,
+                                         format_spec=ast.JoinedStr(values=[ast.Constant(value=spec)]) if spec else None))
+    if len(set(used)) != len(args) + len(kwargs):
+        return None  # an argument that is evaluated but not printed
+    # arguments are evaluated left to right in both spellings only if they are used in order
+    order = [k if isinstance(k, int) else len(args) + list(kwargs).index(k) for k in used]
+    if order != sorted(order) and not all(is_pure_expr(a) for a in list(args) + list(kwargs.values())):
+        return None
+    return ast.JoinedStr(values=values)
+
+
+_MATCH_COUNTER = [0]
+
+
+def _lower_match(node: ast.Match) -> list[ast.stmt] | None:
+    """match S: case P1 [if g]: B1 ...  ->  [tmp = S]; if T1: B1 elif ...   for patterns whose test is one expression and that bind
+    at most the whole subject (value, singleton, class without sub-patterns, wildcard, capture, `as`, alternatives of those)."""
+    subj = node.subject
+    pre: list[ast.stmt] = []
+    if not (isinstance(subj, ast.Name) or (isinstance(subj, ast.Attribute) and is_pure_expr(subj) and not any(isinstance(x, (ast.Call, ast.Subscript)) for x in ast.walk(subj)))):
+        _MATCH_COUNTER[0] += 1
+        tmp = f"_m{_MATCH_COUNTER[0]}__subj"
+        pre.append(ast.copy_location(ast.Assign(targets=[ast.Name(id=tmp, ctx=ast.Store())], value=subj), node))
+        subj = ast.Name(id=tmp, ctx=ast.Load())
+
+    def test(p: ast.pattern) -> tuple[ast.expr | None, str | None] | None:
+        """(test expression or None for irrefutable, bound name)"""
+        if isinstance(p, ast.MatchValue):
+            return ast.Compare(left=copy.deepcopy(subj), ops=[ast.Eq()], comparators=[p.value]), None
+        if isinstance(p, ast.MatchSingleton):
+            return ast.Compare(left=copy.deepcopy(subj), ops=[ast.Is()], comparators=[ast.Constant(value=p.value)]), None
+        if isinstance(p, ast.MatchClass) and not p.patterns and not p.kwd_patterns:
+            return ast.Call(func=ast.Name(id="isinstance", ctx=ast.Load()), args=[copy.deepcopy(subj), p.cls], keywords=[]), None
+        if isinstance(p, ast.MatchAs):
+            if p.pattern is None:
+                return None, p.name
+            inner = test(p.pattern)
+            if inner is None or inner[1] is not None:
+                return None if inner is None else None
+            return inner[0], p.name
+        if isinstance(p, ast.MatchOr):
+            ts = [test(x) for x in p.patterns]
+            if any(t is None or t[1] is not None or t[0] is None for t in ts):
+                return None
+            return ast.BoolOp(op=ast.Or(), values=[t[0] for t in ts]), None  # type: ignore[index,misc]
+        return None
+
+    chain: list[tuple[ast.expr | None, list[ast.stmt]]] = []
+    for case in node.cases:
+        # an irrefutable MatchAs returns (None, name); an unsupported pattern returns None: tell them apart
+        if isinstance(case.pattern, ast.MatchAs) and case.pattern.pattern is None:
+            t: tuple[ast.expr | None, str | None] | None = (None, case.pattern.name)
+        else:
+            t = test(case.pattern)
+            if t is None or t[0] is None:
+                return None
+        cond, name = t
+        body = list(case.body)
+        if name is not None:
+            if case.guard is not None:
+                return None  # the guard may read the binding
+            body = [ast.copy_location(ast.Assign(targets=[ast.Name(id=name, ctx=ast.Store())], value=copy.deepcopy(subj)), case.pattern)] + body
+        if case.guard is not None:
+            cond = case.guard if cond is None else ast.BoolOp(op=ast.And(), values=[cond, case.guard])
+        chain.append((cond, body))
+        if cond is None:
+            break
+    out: list[ast.stmt] = []
+    cur = out
+    for cond, body in chain:
+        if cond is None:
+            cur.extend(body)
+            break
+        st = ast.copy_location(ast.If(test=cond, body=body, orelse=[]), node)
+        cur.append(st)
+        cur = st.orelse
+    res = pre + out
+    for st in res:
+        ast.fix_missing_locations(st)
+    return res or [ast.copy_location(ast.Pass(), node)]
+
 
 def _while_true_break(fn: ast.FunctionDef) -> None:
     """``while True: if c: break; rest``  ->  ``while not c: rest`` (no else clause; `continue` re-evaluates the test either way)."""
@@ -1500,6 +1765,24 @@ def _inline_adjacent(fn: ast.FunctionDef) -> None:
     rewrite(fn.body)
 
 
+def _canon_body(fn: ast.FunctionDef) -> list[ast.stmt]:
+    m = ast.Module(body=list(fn.body), type_ignores=[])
+    m = _Canon().visit(m)
+    _drop_pass(m.body)
+    return m.body or [ast.copy_location(ast.Pass(), fn)]
+
+
+def _drop_pass(block: list[ast.stmt]) -> None:
+    """`pass` next to other statements is noise; a block that consists of it alone keeps one."""
+    for st in block:
+        for sub in _blocks(st):
+            if sub is not None and not isinstance(st, (ast.FunctionDef, ast.AsyncFunctionDef, ast.ClassDef)):
+                _drop_pass(sub)
+    if len(block) > 1:
+        keep = [st for st in block if not isinstance(st, ast.Pass)]
+        block[:] = keep or block[:1]
+
+
 def normalize(fn: ast.FunctionDef, cls: ast.ClassDef | None, qual: str, inliner: HelperInliner | None, keep: set[str] | None = None) -> ast.FunctionDef:
     new = copy.deepcopy(fn)
     new = _StripCasts().visit(new)
@@ -1508,8 +1791,7 @@ def normalize(fn: ast.FunctionDef, cls: ast.ClassDef | None, qual: str, inliner:
         consts = {k: v for k, v in inliner.new_consts.items() if k not in shadow}
         if consts:
             new.body = [_Subst(consts).visit(st) for st in new.body]
-    body = [_Canon().visit(st) for st in new.body]
-    new.body = [st for st in body if not isinstance(st, ast.Pass)] or [ast.copy_location(ast.Pass(), new)]
+    new.body = _canon_body(new)
     if inliner is not None:
         new = inliner.inline(new, cls, qual)
         # nested helpers of later origin that were inlined at every use are dropped
@@ -1520,8 +1802,12 @@ def normalize(fn: ast.FunctionDef, cls: ast.ClassDef | None, qual: str, inliner:
                     new.body.remove(st)
     if inliner is not None and inliner.inlined:
         new = _StripCasts().visit(new)
-        body = [_Canon().visit(st) for st in new.body]  # inlined helper bodies get the same canonical spellings
-        new.body = [st for st in body if not isinstance(st, ast.Pass)] or [ast.copy_location(ast.Pass(), new)]
+        if inliner.new_consts:
+            shadow = {n.id for n in ast.walk(new) if isinstance(n, ast.Name) and isinstance(n.ctx, ast.Store)} | {a.arg for a in ast.walk(new) if isinstance(a, ast.arg)}
+            consts = {k: v for k, v in inliner.new_consts.items() if k not in shadow}
+            if consts:
+                new.body = [_Subst(consts).visit(st) for st in new.body]
+        new.body = _canon_body(new)  # inlined helper bodies get the same canonical spellings
     new = lower(new, tuples=True, ifexp=False)
     new = inline_locals(new, keep)
     _inline_adjacent(new)
